@@ -364,6 +364,11 @@ def s1_zeroize():
             yield 'zeroize/fqs/' + tag, st('S', named(2, [['T'], ['u8']], [fq, []]), [dw(ts)])
             yield 'zeroize/fqs_enum/' + tag, en('E', [variant('A', 'Unnamed', unnamed(2, [['T'], ['u8']], [[], fq])), variant('B', 'Named', named(1, [['T']], [fq]))], [dw(ts)])
             yield 'zeroize/fqs_skip/' + tag, st('S', named(2, [['T'], ['u8']], [[sub(('L', P('Zeroize'), [mpath('fqs')], None), skip_meta('skip', ['Debug']))] if 'Debug' in ts else fq, sk]), [dw(ts)])
+    # every order of a skipped, an fqs and a plain field
+    for oi, perm in enumerate(itertools.permutations([sk, fq, [], [sub('skip')]], 3)):
+        yield 'zeroize/perm/struct/%d' % oi, st('S', named(3, [['T'], ['u8'], ['u16']], list(perm)), [dw(['Zeroize', 'ZeroizeOnDrop', 'Debug'])])
+        if oi % 2 == 0:
+            yield 'zeroize/perm/enum/%d' % oi, en('E', [variant('A'), variant('B', 'Unnamed', unnamed(3, [['T'], ['u8'], ['u16']], list(perm))), variant('C', 'Named', named(2, [['T'], ['u8']], list(perm)[:2]))], [dw(['Zeroize', 'ZeroizeOnDrop'])])
     cr = ('EPath', (False, ['zeroize_']))
     cs = ('EStr', '"::my::zeroize"', (True, ['my', 'zeroize']))
     for ctag, c in (('path', cr), ('str', cs)):
